@@ -1308,49 +1308,341 @@ class Mp4MdhdTie(KindTie):
 
 
 @register
-class Mp4EntryTie(KindTie):
-    """`infob kind=MP4entry data=<sample entry payload>`; the real code: AudioSampleEntry(Atom(f), f) on `sowt` + payload"""
-    name = "MP4entry"
-    hm_kinds = ()
+class Mp4Tie(KindTie):
+    """`infob kind=MP4 data=<file>`: Atoms + MP4Info.load under the handlers of MP4.load"""
+    name = "MP4"
+    hm_kinds = ("MP4_AAC", "MP4_ALAC", "MP4_AC3")
 
-    def real(self, payload):
-        from mutagen.mp4._atom import Atom
-        from mutagen.mp4._as_entry import AudioSampleEntry
-        from mutagen.mp4._as_entry import ASEntryError
-        from mutagen.mp4 import MP4StreamInfoError
-        f = io.BytesIO(mp4_atom(b"sowt", payload))
+    @staticmethod
+    def attrs_of(i):
+        return dict(length=i.length, channels=i.channels, bits_per_sample=i.bits_per_sample, sample_rate=i.sample_rate, bitrate=i.bitrate, codec=i.codec)
+
+    def real(self, data):
+        from mutagen.mp4 import Atoms, MP4Info, MP4NoTrackError, MP4StreamInfoError, error, AtomError
+        f = io.BytesIO(data)
         try:
-            e = AudioSampleEntry(Atom(f), f)
-        except ASEntryError as err:      # what MP4Info._parse_stsd does with it
+            atoms = Atoms(f)
+        except AtomError as err:
+            raise error(err)
+        info = MP4Info()
+        try:                                   # the handlers of MP4.load
+            info.load(atoms, f)
+        except MP4NoTrackError:
+            pass
+        except error:
+            raise
+        except Exception as err:
             raise MP4StreamInfoError(err)
-        return dict(channels=e.channels, sample_size=e.sample_size, sample_rate=e.sample_rate)
+        return self.attrs_of(info)
+
+    def public(self, data):
+        from mutagen.mp4 import MP4
+        return self.attrs_of(MP4(io.BytesIO(data)).info)
+
+    @staticmethod
+    def atoms_of(b):
+        """[(name, payload, raw)] of a box sequence (32-bit sizes)"""
+        out = []; i = 0
+        while i + 8 <= len(b):
+            n = struct.unpack(">I", b[i:i + 4])[0]
+            out.append((b[i + 4:i + 8], b[i + 8:i + n], b[i:i + n])); i += n
+        return out, b[i:]
+
+    def decompose(self, data):
+        """a file of the shape Spec/Info/Mp4.lean builds -> the driver's field dict (None: another shape)"""
+        try:
+            top, tail = self.atoms_of(data)
+            names = [a[0] for a in top]
+            k = names.index(b"moov")
+            mk, _ = self.atoms_of(top[k][1])
+            t = [a[0] for a in mk].index(b"trak")
+            tk, _ = self.atoms_of(mk[t][1])
+            m = [a[0] for a in tk].index(b"mdia")
+            md, _ = self.atoms_of(tk[m][1])
+            if [a[0] for a in md] != [b"mdhd", b"hdlr", b"minf"]:
+                return None
+            mdhd, hdlr = md[0][1], md[1][1]
+            if hdlr[8:12] != b"soun":
+                return None
+            mi, _ = self.atoms_of(md[2][1])
+            if mi[-1][0] != b"stbl":
+                return None
+            sb, _ = self.atoms_of(mi[-1][1])
+            if sb[0][0] != b"stsd":
+                return None
+            stsd = sb[0][1]
+            ents, more = self.atoms_of(stsd[8:])
+            ename, epl, eraw = ents[0]
+            kids, emore = self.atoms_of(epl[28:])
+            xname, xpl, xraw = kids[0]
+        except (ValueError, IndexError, struct.error):
+            return None
+        j = lambda atoms: b"".join(a[2] for a in atoms)
+        ver = mdhd[0]
+        if ver == 1:
+            ct, mt, ts, du, lang, pre = struct.unpack(">QQIQHH", mdhd[4:36])
+        else:
+            ct, mt, ts, du, lang, pre = struct.unpack(">IIIIHH", mdhd[4:24])
+        dri, = struct.unpack(">H", epl[6:8])
+        ch, bits, epre, eres, rate = struct.unpack(">HHHHI", epl[16:28])
+        d = dict(kind="MP4", before=j(top[:k]), after=j(top[k + 1:]), tail=tail, moovbefore=j(mk[:t]), moovafter=j(mk[t + 1:]), trakbefore=j(tk[:m]), trakafter=j(tk[m + 1:]),
+                 version=ver, flags=int.from_bytes(mdhd[1:4], "big"), ctime=ct, mtime=mt, timescale=ts, duration=du, lang=lang, predef=pre,
+                 hdlrhead=hdlr[:8], hdlrrest=hdlr[12:], minfbefore=j(mi[:-1]), stblafter=j(sb[1:]), stsdflags=int.from_bytes(stsd[1:4], "big"),
+                 entrycount=struct.unpack(">I", stsd[4:8])[0], dri=dri, ch=ch, bits=bits, epredef=epre, ereserved=eres, rate=rate >> 16, frac=rate & 0xFFFF,
+                 entrymore=j(kids[1:]) + emore, moreentries=j(ents[1:]) + more)
+        if ename == b"alac" and xname == b"alac" and len(xpl) == 28 and xpl[:4] == b"\0\0\0\0" and xpl[8] == 0:
+            fl, cv, depth, pb, mb, kb, nch, maxrun, mfb, abr, arate = struct.unpack(">IBBBBBBHIII", xpl[4:])
+            d.update(codec="alac", aframe=fl, adepth=depth, apb=pb, amb=mb, akb=kb, ach=nch, amaxrun=maxrun, amaxframe=mfb, abr=abr, arate=arate)
+        elif ename == b"ac-3" and xname == b"dac3" and len(xpl) == 3:
+            v = int.from_bytes(xpl, "big")
+            d.update(codec="dac3", fscod=v >> 22, bsid=(v >> 17) & 31, bsmod=(v >> 14) & 7, acmod=(v >> 11) & 7, lfeon=(v >> 10) & 1, brc=(v >> 5) & 31, dres=v & 31)
+        elif ename == b"mp4a" and xname == b"esds":
+            e = self.esds_fields(xpl)
+            if e is None:
+                return None
+            d.update(codec="esds", **e)
+        elif (ename, xname) in ((b"mp4a", b"esds"), (b"alac", b"alac"), (b"ac-3", b"dac3")):
+            return None
+        else:
+            d.update(codec="plain", ename=ename, extra=xraw)
+        return d
+
+    @staticmethod
+    def esds_build(e):
+        L = (lambda n: bytes([0x80, 0x80, 0x80, n])) if e["long"] else (lambda n: bytes([n]))
+        if e["fidx"] == 15:
+            asc = ((e["aot"] << 35) | (15 << 31) | (e["efreq"] << 7) | (e["cc"] << 3) | (e["flf"] << 2)).to_bytes(5, "big")
+        else:
+            asc = ((e["aot"] << 11) | (e["fidx"] << 7) | (e["cc"] << 3) | (e["flf"] << 2)).to_bytes(2, "big")
+        dcd = bytes([0x40, 5 * 4 + e["upstream"] * 2 + 1]) + e["bufsize"].to_bytes(3, "big") + struct.pack(">II", e["maxbr"], e["avgbr"]) + bytes([5]) + L(len(asc)) + asc
+        es = struct.pack(">HB", e["esid"], e["prio"]) + bytes([4]) + L(len(dcd)) + dcd + e["sl"]
+        return b"\0\0\0\0" + bytes([3]) + L(len(es)) + es
+
+    def esds_fields(self, xpl):
+        """the fields of an esds payload of the shape Spec.Mp4Info.Esds describes (None: another shape)"""
+        try:
+            long = 1 if xpl[5] == 0x80 else 0
+            k = 4 if long else 1
+            es = xpl[5 + k:]
+            esid, prio = struct.unpack(">HB", es[:3])
+            dcd = es[4 + k:]
+            oti, st = dcd[0], dcd[1]
+            buf = int.from_bytes(dcd[2:5], "big")
+            mx, avg = struct.unpack(">II", dcd[5:13])
+            alen = dcd[13 + k]
+            asc = dcd[14 + k:14 + k + alen]
+            v = int.from_bytes(asc, "big")
+            if alen == 2:
+                aot, fidx, efreq, cc, flf = v >> 11, (v >> 7) & 15, 0, (v >> 3) & 15, (v >> 2) & 1
+            elif alen == 5:
+                aot, fidx, efreq, cc, flf = v >> 35, (v >> 31) & 15, (v >> 7) & 0xFFFFFF, (v >> 3) & 15, (v >> 2) & 1
+            else:
+                return None
+            e = dict(long=long, esid=esid, prio=prio, upstream=(st >> 1) & 1, bufsize=buf, maxbr=mx, avgbr=avg, aot=aot, fidx=fidx, efreq=efreq, cc=cc, flf=flf,
+                     sl=dcd[14 + k + alen:])
+        except (IndexError, struct.error):
+            return None
+        if aot not in (1, 2, 3, 4, 7) or not (fidx < 13 or fidx == 15) or not 1 <= cc <= 7 or prio >= 32 or self.esds_build(e) != xpl:
+            return None
+        return e
+
+    def fields_of(self, kind, p, data):
+        return self.decompose(data)
 
     def lattice(self, rng, scale):
         out = []
         free = mp4_atom(b"free", b"")
 
-        def add(dri=1, ch=2, bits=16, predef=0, reserved=0, rate=44100, frac=0, children=free):
-            out.append(dict(kind="MP4entry", dri=dri, ch=ch, bits=bits, predef=predef, reserved=reserved, rate=rate, frac=frac, children=children))
+        def add(*a, **kw):
+            d = self.decompose(self.file_of(*a, **kw))
+            if d is not None and (d.get("codec") != "dac3" or d["brc"] < 19):
+                out.append(d)
         for v in edges(16):
-            add(ch=v)
-            add(bits=v)
-            add(rate=v)
-            add(frac=v)
-            add(dri=v, predef=v, reserved=v)
-        for ch in [b"", b"\0" * 7, free, mp4_atom(b"wave", b"xyz"), mp4_atom(b"esds", b"\0" * 5), struct.pack(">I4s", 7, b"free"), struct.pack(">I4s", 0, b"free"),
-                   struct.pack(">I4sQ", 1, b"free", 16), struct.pack(">I4sQ", 1, b"free", 15), struct.pack(">I4s", 1, b"free") + b"\0" * 7,
-                   struct.pack(">I4s", 1000, b"abcd"), struct.pack(">I4s", 0xFFFFFFFF, b"abcd"), struct.pack(">I4sQ", 1, b"free", (1 << 64) - 1),
-                   mp4_atom(b"moov", b""), mp4_atom(b"meta", b"\0\0\0\0")]:
-            add(children=ch)
-        for _ in range(30 * scale):
-            add(ch=rng.getrandbits(16), bits=rng.getrandbits(16), rate=rng.getrandbits(16), frac=rng.getrandbits(16),
-                children=mp4_atom(bytes(rng.choice(b"abcdxyz") for _ in range(4)), rbytes(rng, rng.randrange(12))))
+            add(b"sowt", free, ch=v, bits=rng.getrandbits(16), rate=rng.getrandbits(16))
+            add(b"twos", mp4_atom(b"wave", rbytes(rng, 5)) + free, bits=v)
+            add(b"samr", free, rate=v)
+        for name, x in [(b"mp4a", mp4_atom(b"wave", b"")), (b"alac", free), (b"ac-3", mp4_atom(b"dec3", b"abc")), (b"enca", mp4_atom(b"sinf", b"")), (b"mp4a", mp4_atom(b"udta", free)),
+                        (b"\xa9abc", mp4_atom(b"meta", b"\0\0\0\0" + free))]:
+            add(name, x)
+        for ver, body in [(0, struct.pack(">IIII", 1, 2, 48000, 96000)), (1, struct.pack(">QQIQ", 1, 2, 48000, 1 << 40)), (0, struct.pack(">IIII", 0, 0, 1, 0xFFFFFFFF)),
+                          (1, struct.pack(">QQIQ", (1 << 64) - 1, 5, 0xFFFFFFFF, (1 << 64) - 1))]:
+            add(b"sowt", free, mdhd=bytes([ver, 0, 0, 7]) + body + b"\x55\xc4\0\0")
+        for depth, ch, br, sr in [(16, 2, 0, 44100), (24, 6, 1234567, 96000), (255, 255, 0xFFFFFFFF, 0xFFFFFFFF), (0, 0, 0, 0)] + [(rng.getrandbits(8), rng.getrandbits(8), rng.getrandbits(32), rng.getrandbits(32)) for _ in range(10 * scale)]:
+            cookie = b"\0\0\0\0" + struct.pack(">IBBBBBBHIII", rng.getrandbits(32), 0, depth, 40, 10, 14, ch, 255, rng.getrandbits(32), br, sr)
+            add(b"alac", mp4_atom(b"alac", cookie) + rng.choice([b"", free]), ch=rng.getrandbits(16), bits=16, rate=rng.getrandbits(16))
+        for acmod in range(8):
+            for lfe in (0, 1):
+                for brc in (0, 1, 18, rng.randrange(19)):
+                    add(b"ac-3", mp4_atom(b"dac3", self.bits((rng.getrandbits(2), 2), (rng.getrandbits(5), 5), (rng.getrandbits(3), 3), (acmod, 3), (lfe, 1), (brc, 5), (rng.getrandbits(5), 5))),
+                        rate=48000, bits=rng.getrandbits(16))
+        for aot in (1, 2, 3, 4, 7):
+            for fidx in list(range(13)) + [15]:
+                for cc in range(1, 8):
+                    if rng.random() < 0.3:
+                        e = dict(long=rng.getrandbits(1), esid=rng.getrandbits(16), prio=rng.getrandbits(5), upstream=rng.getrandbits(1), bufsize=rng.getrandbits(24),
+                                 maxbr=rng.getrandbits(32), avgbr=rng.getrandbits(32), aot=aot, fidx=fidx, efreq=rng.choice([0, 1, 24000, 24001, 48000, rng.getrandbits(24)]) if fidx == 15 else 0,
+                                 cc=cc, flf=rng.getrandbits(1), sl=rng.choice([b"", bytes([6, 1, 2])]))
+                        add(b"mp4a", mp4_atom(b"esds", self.esds_build(e)), ch=rng.choice([1, 2, 6]), rate=rng.choice([22050, 44100, 48000, 0]))
+        vtrak = mp4_atom(b"tref", b"xx")
+        add(b"sowt", free, extra_traks=vtrak, pre=mp4_atom(b"free", b"1234") + mp4_atom(b"mdat", b"\0" * 9))
+        return out
+
+    @staticmethod
+    def file_of(entry_name, entry_children, ch=2, bits=16, rate=44100, mdhd=None, hdlr=b"soun", stsd_prefix=b"\0\0\0\0\0\0\0\1", extra_traks=b"", pre=b""):
+        entry = mp4_atom(entry_name, b"\0" * 6 + b"\0\1" + b"\0" * 8 + struct.pack(">HHHHI", ch, bits, 0, 0, (rate & 0xFFFF) << 16) + entry_children)
+        stsd = mp4_atom(b"stsd", stsd_prefix + entry)
+        mdhd = struct.pack(">IIIIIHH", 0, 0, 0, 44100, 88200, 0x55C4, 0) if mdhd is None else mdhd
+        trak = mp4_atom(b"trak", mp4_atom(b"mdia", mp4_atom(b"mdhd", mdhd) + mp4_atom(b"hdlr", b"\0" * 8 + hdlr + b"\0" * 13) +
+                                          mp4_atom(b"minf", mp4_atom(b"smhd", b"\0" * 8) + mp4_atom(b"stbl", stsd))))
+        return mp4_atom(b"ftyp", b"M4A \0\0\0\0") + pre + mp4_atom(b"moov", mp4_atom(b"mvhd", b"\0" * 100) + extra_traks + trak)
+
+    @staticmethod
+    def esds(asc, oti=0x40, stream_type=5, avg=128000, flags=0, url=b"", dcd_len=None, dsi_len=None, longform=False, with_dsi=True, sl=True):
+        def L(n):
+            return bytes([0x80, 0x80, 0x80, n]) if longform else bytes([n])
+        dsi = bytes([5]) + L(len(asc) if dsi_len is None else dsi_len) + asc if with_dsi else b""
+        dcd_body = bytes([oti, (stream_type << 2) | 1]) + b"\0\x18\0" + struct.pack(">II", avg * 2, avg) + dsi
+        dcd = bytes([4]) + L(len(dcd_body) if dcd_len is None else dcd_len) + dcd_body
+        es_body = struct.pack(">HB", 1, flags)
+        if flags & 0x80:
+            es_body += b"\0\2"
+        if flags & 0x40:
+            es_body += bytes([len(url)]) + url
+        if flags & 0x20:
+            es_body += b"\0\3"
+        es_body += dcd + (bytes([6, 1, 2]) if sl else b"")
+        return mp4_atom(b"esds", b"\0\0\0\0" + bytes([3]) + L(len(es_body)) + es_body)
+
+    @staticmethod
+    def bits(*fields):
+        v = 0; n = 0
+        for val, w in fields:
+            v = (v << w) | (val & ((1 << w) - 1)); n += w
+        pad = (-n) % 8
+        return ((v << pad).to_bytes((n + pad) // 8, "big")) if n else b""
+
+    def own_files(self, rng, scale):
+        out = []
+        B = self.bits
+        # --- esds: AudioSpecificConfig shapes
+        for aot in list(range(0, 46)) + [63, 94]:
+            for idx in (0, 3, 4, 11, 12, 13, 14, 15):
+                for cc in (0, 1, 2, 6, 7, 8, 15):
+                    if rng.random() < 0.12 * min(scale, 3) or (idx == 4 and cc == 2):
+                        aotf = [(aot, 5)] if aot < 31 else [(31, 5), (aot - 32, 6)]
+                        fr = [(idx, 4)] + ([(rng.getrandbits(24), 24)] if idx == 15 else [])
+                        tail = [(rng.getrandbits(1), 1), (rng.getrandbits(1), 1), (rng.getrandbits(1), 1)] + [(rng.getrandbits(8), 8)] * rng.randrange(0, 6)
+                        if aot in (5, 29):
+                            tail = [(rng.choice([3, 6, 15]), 4)] + ([(rng.getrandbits(24), 24)] if tail and False else []) + [(rng.choice([2, 22, 1]), 5)] + tail
+                        asc = B(*(aotf + fr + [(cc, 4)] + tail))
+                        out.append(("esds-asc", self.file_of(b"mp4a", self.esds(asc), ch=rng.choice([1, 2, 6]), rate=rng.choice([44100, 48000, 22050]))))
+        # explicit SBR/PS signalling behind a GASpecificConfig
+        for sync, ext, sbr, idx, ps_sync, ps in [(0x2b7, 5, 1, 3, 0x548, 1), (0x2b7, 5, 1, 6, 0x548, 0), (0x2b7, 5, 0, 0, 0, 0), (0x2b7, 5, 1, 15, 0x547, 1),
+                                                 (0x2b6, 5, 1, 3, 0, 0), (0x2b7, 22, 1, 3, 0, 0), (0x2b7, 22, 0, 3, 0, 0), (0x2b7, 2, 1, 3, 0, 0)]:
+            for base_idx in (4, 7, 6):
+                for dlen in (None, 2, 4, 5, 6, 7, 30):
+                    fr = [(idx, 4)] + ([(48000, 24)] if idx == 15 else [])
+                    asc = B((2, 5), (base_idx, 4), (2, 4), (0, 1), (0, 1), (0, 1), (sync, 11), (ext, 5), (sbr, 1), *(fr + [(ps_sync, 11), (ps, 1), (5, 4)]))
+                    out.append(("esds-sbr", self.file_of(b"mp4a", self.esds(asc, dsi_len=dlen))))
+        # program_config_element (channelConfiguration 0)
+        for _ in range(25 * scale):
+            nf, ns, nb, nl, na, nc = rng.randrange(4), rng.randrange(3), rng.randrange(3), rng.randrange(3), rng.randrange(3), rng.randrange(3)
+            f = [(2, 5), (4, 4), (0, 4), (0, 1), (rng.getrandbits(1), 1)]
+            if f[-1][0]:
+                f.append((rng.getrandbits(14), 14))
+            ext = rng.getrandbits(1)
+            f.append((ext, 1))
+            f += [(rng.getrandbits(4), 4), (1, 2), (4, 4), (nf, 4), (ns, 4), (nb, 4), (nl, 2), (na, 3), (nc, 4)]
+            for _m, w in ((0, 4), (0, 4), (0, 3)):
+                m = rng.getrandbits(1)
+                f.append((m, 1))
+                if m:
+                    f.append((rng.getrandbits(w), w))
+            for _i in range(nf + ns + nb):
+                f += [(rng.getrandbits(1), 1), (rng.getrandbits(4), 4)]
+            f += [(rng.getrandbits(4), 4)] * nl + [(rng.getrandbits(4), 4)] * na + [(rng.getrandbits(5), 5)] * nc
+            n = sum(w for _, w in f)
+            if n % 8:
+                f.append((0, 8 - n % 8))
+            cb = rng.randrange(3)
+            f += [(cb, 8)] + [(65, 8)] * cb + [(ext and rng.getrandbits(1), 1), (0, 7)]
+            asc = B(*f)
+            cut = rng.choice([None, None, None, rng.randrange(len(asc) + 1)])
+            out.append(("esds-pce", self.file_of(b"mp4a", self.esds(asc if cut is None else asc[:cut]))))
+        # descriptor structure
+        asc = B((2, 5), (4, 4), (2, 4), (0, 3))
+        for kw in [dict(oti=0x40, stream_type=4), dict(oti=0x6B), dict(oti=0x69, with_dsi=False), dict(oti=0xE1), dict(flags=0x80), dict(flags=0x40, url=b"http://x"),
+                   dict(flags=0x20), dict(flags=0xE0, url=b""), dict(longform=True), dict(dcd_len=13), dict(dcd_len=14), dict(dcd_len=0), dict(dsi_len=0), dict(dsi_len=1),
+                   dict(dsi_len=100), dict(with_dsi=False), dict(with_dsi=False, sl=False), dict(avg=0), dict(avg=0xFFFFFFFF // 2)]:
+            out.append(("esds-desc", self.file_of(b"mp4a", self.esds(asc, **kw))))
+        e = self.esds(asc)
+        for n in range(8, len(e) + 1):
+            out.append(("esds-trunc", self.file_of(b"mp4a", struct.pack(">I", n) + e[4:n])))
+        for off, val in [(8, 1), (12, 4), (12, 0), (13, 0x80), (13, 0xFF), (18, 5), (19, 0x80), (32, 6), (33, 0x80)]:
+            b2 = bytearray(e); b2[off] = val
+            out.append(("esds-flip", self.file_of(b"mp4a", bytes(b2))))
+        out.append(("esds-lenvarint5", self.file_of(b"mp4a", mp4_atom(b"esds", b"\0\0\0\0\3\x80\x80\x80\x80\x10" + e[14:]))))
+        out.append(("esds-not-mp4a", self.file_of(b"mp4v", e)))
+        out.append(("mp4a-not-esds", self.file_of(b"mp4a", mp4_atom(b"wave", e))))
+        # --- alac
+        for ver, compat, bits, ch, br, sr in [(0, 0, 16, 2, 0, 44100), (0, 0, 24, 6, 1234567, 96000), (0, 0, 255, 255, 0xFFFFFFFF, 0xFFFFFFFF), (0, 1, 24, 6, 1, 2), (1, 0, 16, 2, 0, 44100),
+                                             (0, 0, 0, 0, 0, 0)]:
+            cookie = bytes([ver, 0, 0, 0]) + struct.pack(">IBBBBBBHIII", 4096, compat, bits, 40, 10, 14, ch, 255, 0, br, sr)
+            out.append(("alac", self.file_of(b"alac", mp4_atom(b"alac", cookie))))
+            for n in (0, 3, 4, 5, 8, 9, 10, 23, 27):
+                out.append(("alac-trunc", self.file_of(b"alac", mp4_atom(b"alac", cookie[:n]))))
+        out.append(("alac-in-mp4a", self.file_of(b"mp4a", mp4_atom(b"alac", cookie))))
+        # --- dac3
+        for acmod in range(8):
+            for lfe in (0, 1):
+                for brc in (0, 1, 18, 19, 31, rng.randrange(32)):
+                    out.append(("dac3", self.file_of(b"ac-3", mp4_atom(b"dac3", B((rng.getrandbits(2), 2), (8, 5), (0, 3), (acmod, 3), (lfe, 1), (brc, 5), (rng.getrandbits(5), 5)) + rbytes(rng, rng.randrange(2))),
+                                                     rate=48000)))
+        for n in (0, 1, 2):
+            out.append(("dac3-trunc", self.file_of(b"ac-3", mp4_atom(b"dac3", b"\x10\x3d\x40"[:n]))))
+        # --- sample entry / stsd / tree shapes
+        free = mp4_atom(b"free", b"")
+        for name in (b"sowt", b"twos", b"samr", b"\xa9xyz", b"moov", b"free"):
+            out.append(("entry-name", self.file_of(name, free, ch=rng.getrandbits(16), bits=rng.getrandbits(16), rate=rng.getrandbits(16))))
+        for ch in [b"", b"\0" * 7, struct.pack(">I4s", 7, b"free"), struct.pack(">I4s", 0, b"free"), struct.pack(">I4sQ", 1, b"free", 16), struct.pack(">I4sQ", 1, b"free", 15),
+                   struct.pack(">I4s", 1000, b"abcd"), struct.pack(">I4sQ", 1, b"free", (1 << 64) - 1), struct.pack(">I4sQ", 1, b"free", (1 << 63) - 29), struct.pack(">I4sQ", 1, b"free", (1 << 63) - 28),
+                   mp4_atom(b"moov", b""), mp4_atom(b"meta", b"\0\0\0\0"), mp4_atom(b"udta", mp4_atom(b"free", b"")), mp4_atom(b"udta", b"\0\0\0")]:
+            out.append(("entry-children", self.file_of(b"sowt", ch)))
+        for pre in [b"", b"\0\0\0", b"\1\0\0\0\0\0\0\1", b"\0\0\0\0\0\0\0\0", b"\0\0\0\0\0\0\0", b"\0\0\0\0\xff\xff\xff\xff", b"\0\xff\xff\xff\0\0\0\2"]:
+            out.append(("stsd-prefix", self.file_of(b"sowt", free, stsd_prefix=pre)))
+        for hd in (b"vide", b"soun", b"sou", b"SOUN"):
+            out.append(("hdlr", self.file_of(b"sowt", free, hdlr=hd)))
+        vtrak = mp4_atom(b"trak", mp4_atom(b"mdia", mp4_atom(b"mdhd", b"\0" * 24) + mp4_atom(b"hdlr", b"\0" * 8 + b"vide" + b"\0" * 13)))
+        out.append(("video-first", self.file_of(b"sowt", free, extra_traks=vtrak)))
+        out.append(("trak-without-hdlr", self.file_of(b"sowt", free, extra_traks=mp4_atom(b"trak", mp4_atom(b"mdia", b"")))))
+        out.append(("trak-without-mdia", self.file_of(b"sowt", free, extra_traks=mp4_atom(b"trak", b""))))
+        out.append(("second-moov", self.file_of(b"sowt", free, pre=mp4_atom(b"moov", b""))))
+        out.append(("no-moov", mp4_atom(b"ftyp", b"M4A \0\0\0\0") + mp4_atom(b"mdat", b"xx")))
+        for ver, body in [(0, struct.pack(">IIII", 1, 2, 48000, 96000)), (1, struct.pack(">QQIQ", 1, 2, 48000, 1 << 40)), (0, struct.pack(">IIII", 1, 2, 0, 5)), (2, b"\0" * 30)]:
+            m = bytes([ver, 0, 0, 0]) + body + b"\x55\xc4\0\0"
+            out.append(("mdhd", self.file_of(b"sowt", free, mdhd=m)))
+            for n in (0, 3, 4, 11, 12, 19, 20, 27, 28, 31):
+                out.append(("mdhd-trunc", self.file_of(b"sowt", free, mdhd=m[:n])))
         return out
 
     def damaged(self, rng, goods, scale):
-        out = []
-        for g in goods[:3 + scale]:
-            out += damage(rng, g, every_prefix=44, n_random=8)
+        from gen import headers_more as H
+        out = self.own_files(rng, scale)
+        hm = []
+        for kind in self.hm_kinds:
+            fn = dict(H._CASE_FUNCS)[kind]
+            ps = fn(rng, 1)
+            for params in ps[:2] + ps[-2:]:
+                hm.append(H.BUILDERS[kind](params)[0])
+        for g in hm + [x for _, x in out[:3]]:
+            out += [(w, d) for w, d in damage(rng, g, every_prefix=0, n_random=25 * scale)]
+            for key in (b"moov", b"trak", b"mdia", b"mdhd", b"hdlr", b"minf", b"stbl", b"stsd", b"mp4a", b"esds", b"alac", b"dac3"):
+                i = g.find(key)
+                if i > 4:
+                    for v in (0, 1, 7, 8, 9, 15, 16, 100, 1 << 31, 0xFFFFFFFF):
+                        out.append(("size-of-" + key.decode(), g[:i - 4] + struct.pack(">I", v) + g[i:]))
+                    out.append(("name-of-" + key.decode(), g[:i] + key.upper() + g[i + 4:]))
+                    out.append(("cut-in-" + key.decode(), g[:i + 4 + rng.randrange(0, 30)]))
         out.append(("empty", b""))
         return out
 
